@@ -4,6 +4,7 @@ from ..expressions import (
     AddExpression,
     BinaryExpression,
     ConstantExpression,
+    EqualExpression,
     MathExpression,
     MultiplyExpression,
     NegateExpression,
@@ -67,8 +68,10 @@ class ConstantsSimplifyRule(BaseRule):
 
         # Check simple case of left/right child binary op with constants
         # (4 * 2) + 3
+        # NOTE: an equation between two constants (2 = 3) is not arithmetic to fold
         if (
             isinstance(node, BinaryExpression)
+            and not isinstance(node, EqualExpression)
             and isinstance(node.left, ConstantExpression)
             and isinstance(node.right, ConstantExpression)
         ):
